@@ -26,7 +26,8 @@ PROOF_TARGETS = ["Props/C08.vo"]
 PROPS_FILE = "Props/C08.v"
 PROPS_MODULE = "Props.C08"
 RULE = ("each of the 16 converters (and convert_merge) x random source charts of the source game (0-5 rows per list, empty lists, "
-        "ties, SV lists for osu/Quaver, 1-3 charts for StepMania/O2Jam mapsets) x a random history of the source (none, rate, stack "
+        "ties, SV lists for osu/Quaver, 1-3 charts for StepMania/O2Jam mapsets; a third of the charts with values no game client "
+        "honours: 0x / negative / 25x / 0.005x SV multipliers, 0.125 .. 2*10^6 bpm) x a random history of the source (none, rate, stack "
         "edit, filter, reverse sort, append, deepcopy, combinations) x shift argument for the BMS targets; the first case of every converter and one in ten of the others has source charts without notes; per case the whole source "
         "(lists as frames with labels, every declared attribute of chart and mapset) and the whole result are handed to Coq; "
         "non-trivial = some source list has >= 2 rows; distinct by hash of canonical JSON")
